@@ -130,7 +130,12 @@ def run_history(workdir, model_info, ops, kind, dtype, channels, encoding, rng,
             # final sweep through a FRESH handle: every chunk ever written
             if kind["acc"] == "sharded":
                 acc.close()
-            acc = mk_acc()
+                acc = mk_acc()
+            else:
+                # "files on disk as seen by a second accessor instance": the fresh
+                # handle is opened with ANOTHER layout/compression configuration
+                k2 = int(rng.integers(0, 4))
+                acc = open_accessor({"acc": "file", "flat": bool(k2 & 1), "gzip": bool(k2 & 2)}, base, False)
             io_obj = pio.get_IO_for_existing_dataset(acc, encoder_options=enc_opts or {})
             events.append({"op": "reopen", "s": 0, "c": [], "res": "ok", "shape": [], "dt": "", "bytes": []})
             for (s, c) in written:
